@@ -35,6 +35,13 @@ MAP = [
  ("S38", "C03", "B", "blockers-from-last-reader-index", ">=2 accepted candidates reading one resource, then a candidate writing it", "first run: caught (C03.R4 blockers-use-footprints_conflict)"),
  ("S39", "C04", "A", "upsert-edge-via-delete-edge-exact-drops-attachment", "an existing edge carrying an attachment is upserted with a changed record while its attachment value stays the same", "first run: caught by C14.R3; the C04 check itself crashed (KeyError) - fixed"),
  ("S40", "C04", "B", "diff-edges-through-reverse-index-misses-retype", "an edge that keeps id and endpoints but changes only its type", "first run: caught (C04.R9 + fail-closed anchor)"),
+ ("S41", "C05", "A", "restore-replay-base-skips-rehash", "a retained checkpoint whose graph was altered after add_checkpoint; a replay/seek whose target tick equals the checkpoint tick", "first run: caught (C05.R3/C07.R2 gate table; same clause as S05)"),
+ ("S42", "C05", "B", "validate-btr-zips-with-retained-entries", "a BTR whose payload overruns the retained history (genuine prefix plus forged tail)", "first run: missed"),
+ ("S43", "C06", "A", "edge-portal-followed-only-for-new-targets", "an edge portal whose target node is already visited (parallel edge, back edge, self loop)", "first run: caught (C06.R3 every-edge-probed-for-descend, from S06)"),
+ ("S44", "C06", "B", "attachment-tables-get-separate-blob-arenas", "one instance carrying both a non-empty node atom and a non-empty edge atom; WSC write then read back", "first run: missed"),
+ ("S45", "C07", "A", "seek-rewind-advances-in-place-when-checkpoint-exists", "a cursor rewinds on a worldline that has a checkpoint at or before the target", "first run: missed"),
+ ("S46", "C07", "B", "fork-partition-point-keeps-checkpoint-at-fork-plus-two", "source checkpoint at exactly fork_tick+2, fork not at the tip, child commits its own tick, seek past it", "first run: caught (C07.R5 linear-form bound, from S07)"),
+ ("S48", "C08", "B", "restore-correlation-returns-early-when-present", "commit through the ticketed path, run persistence+history restore on the same live runtime, then retry via ingest", "first run: missed (C08/A of the same agent repeated S08 and was caught by the S08 rule; not stored twice)"),
 ]
 CHANGE = {
  "S09": "`checkpoint_for` replaced by a lazy per-head capture inside the commit loop: a second head on the same worldline overwrites the saved pre-pass frontier with one that already contains the first head's commit",
@@ -68,6 +75,13 @@ CHANGE = {
  "S37": "`radix_sort` skips passes whose digit it judges constant, indexing the difference array by pair instead of 2*pair",
  "S38": "`reserve_for_receipt` finds blockers through an index that remembers one (the last) reader per resource",
  "S39": "`upsert_edge_record` re-implemented as `delete_edge_exact` + insert, which also clears the edge's attachment",
+ "S41": "`restore_replay_base` drops the re-hash of the checkpoint state and trusts the recorded state hash",
+ "S42": "`validate_btr` compares `history.entries[start..]` zipped with the payload instead of looking every payload entry up",
+ "S43": "`collect_reachable_graph` continues past an edge whose target node was already visited before probing the edge's attachment for a portal",
+ "S44": "WSC build: node and edge attachment tables built by one helper with an arena each; arenas concatenated without rebasing offsets",
+ "S45": "`seek_to` decision rewritten as a match on `checkpoint_before`: the Some arm drops `target < self.tick`",
+ "S46": "`fork` checkpoint filter rewritten with `partition_point` on child tip + 1 but keeping `<=`",
+ "S48": "`restore_receipt_correlation` returns Ok early when the correlation is already present, skipping the committed-ingress refill",
  "S40": "`diff_edges` matches edges through the reverse indexes (from/to only): a type-only change emits no `UpsertEdge`",
 }
 res = json.load(open("/tmp/seeds/seed_results.json")) if os.path.exists("/tmp/seeds/seed_results.json") else {}
